@@ -48,10 +48,10 @@ def parse_out_lines(text, tag="OUT"):
 
 
 def run_tlc(workdir, module, cfg, workers=8, timeout=900, extra_args=(), props=(), env=None, xmx="6g", xss=None,
-            coverage=False):
+            coverage=False, tag=""):
     """Run TLC in workdir on module.tla (must exist there or in SPECS) with cfg (path)."""
     os.makedirs(workdir, exist_ok=True)
-    meta = os.path.join(workdir, "states_" + module + "_" + os.path.basename(cfg).replace(".cfg", ""))
+    meta = os.path.join(workdir, "states_" + module + "_" + os.path.basename(cfg).replace(".cfg", "") + tag)
     shutil.rmtree(meta, ignore_errors=True)
     cmd = java_cmd(props, xmx=xmx, xss=xss) + ["-workers", str(workers), "-noGenerateSpecTE", "-metadir", meta,
                                                 "-cleanup", "-config", cfg]
